@@ -554,21 +554,25 @@ func c04Record(c *core.Ctx) {
 	}
 	ensures(c, rule, ua, "err=nil", []Req{{"record-read", "ok(" + rs + ")", "an unreadable record refuses the update (and so the signature)"}})
 	// never lowered — ekm bump
-	atCalls(c, rule, ekmKM+"updateHighestAttestation", ekmN+"Storage.SaveHighestAttestation", []Req{
+	kb := atCalls(c, rule, ekmKM+"updateHighestAttestation", e2kmN+"core.SlashingStore.SaveHighestAttestation", []Req{
 		{"absent-or-lower-in-both", "or(absent-or-lower-in-both)", "the minimal record may replace the stored one only when none exists or when the stored one is lower in BOTH components — otherwise a component is lowered"},
 		{"record-read", "ok(ssv/ekm.ethKeyManagerSigner.RetrieveHighestAttestation(p0, p1))", "an unreadable record must not be overwritten"},
 	})
-	atCalls(c, rule, ekmKM+"updateHighestProposal", ekmN+"Storage.SaveHighestProposal", []Req{
+	kb += atCalls(c, rule, ekmKM+"updateHighestProposal", e2kmN+"core.SlashingStore.SaveHighestProposal", []Req{
 		{"absent-or-lower", "or(absent-or-lower)", "the minimal slot may replace the stored one only when none exists or the stored one is lower"},
 		{"record-read", "ok(ssv/ekm.ethKeyManagerSigner.RetrieveHighestProposal(p0, p1))", "an unreadable record must not be overwritten"},
 	})
+	c.Min(rule, kb, 2, "record saves in the ekm bump functions")
+	nb := 0
+	defer func() { c.Min(rule, nb, 2, "saved values checked in the ekm bump functions") }()
 	for _, m := range []string{"updateHighestAttestation", "updateHighestProposal"} {
 		f := fn(c, rule, ekmKM+m)
 		if f == nil {
 			continue
 		}
 		a := c.E.Analyze(f)
-		for _, cs := range callsIn(f, ekmN+"Storage.SaveHighest*") {
+		for _, cs := range callsIn(f, e2kmN+"core.SlashingStore.SaveHighest*") {
+			nb++
 			args := cs.Instr.Common().Args
 			val := a.D.D(args[len(args)-1]).String()
 			c.Decide(strings.HasPrefix(val, "ssv/ekm.ethKeyManagerSigner.computeMinimal"), rule, m+"|stores the computed minimal record", c.P.Pos(cs.Instr.Pos()), val, "stores "+val+" instead of the computed minimal record")
